@@ -36,11 +36,12 @@ def _gen_table_inc(repo_src):
         len(vals), ", ".join(vals), ms.group(1))
 
 
-def prepare(repo, companion_file):
+def prepare(repo, companion_file, package="bitar"):
     os.makedirs(SRC, exist_ok=True)
     subprocess.run(["rsync", "-a", "--delete", "--checksum", "--exclude", "/target", "--exclude", ".git",
                     repo.rstrip("/") + "/", SRC + "/"], check=True)
-    tests = os.path.join(SRC, "bitar", "tests")
+    tests = os.path.join(SRC, "bitar", "tests") if package == "bitar" else os.path.join(SRC, "tests")
+    os.makedirs(tests, exist_ok=True)
     with open(os.path.join(ROOT, companion_file)) as f:
         text = f.read()
     name = "verif_" + os.path.splitext(os.path.basename(companion_file))[0]
@@ -54,7 +55,7 @@ def prepare(repo, companion_file):
     return True
 
 
-def run_companion(repo, companion_file, tests, seed=1, cases=None, timeout=900, stride=None):
+def run_companion(repo, companion_file, tests, seed=1, cases=None, timeout=900, stride=None, package="bitar"):
     """-> dict(status: ok|witness|error, witnesses: [...], cases: int, wall_s, cmd, out_tail)"""
     os.makedirs(WORK, exist_ok=True)
     t0 = time.time()
@@ -62,7 +63,7 @@ def run_companion(repo, companion_file, tests, seed=1, cases=None, timeout=900, 
     with open(os.path.join(WORK, "lock"), "w") as lk:
         fcntl.flock(lk, fcntl.LOCK_EX)
         try:
-            if not prepare(repo, companion_file):
+            if not prepare(repo, companion_file, package):
                 res["out_tail"] = "could not extract BUZHASH_TABLE from the source"
                 return res
         except Exception as e:   # noqa
@@ -74,7 +75,10 @@ def run_companion(repo, companion_file, tests, seed=1, cases=None, timeout=900, 
         if stride:
             env["VERIF_COMPANION_STRIDE"] = str(stride)
         name = "verif_" + os.path.splitext(os.path.basename(companion_file))[0]
-        cmd = ["cargo", "test", "--offline", "-p", "bitar", "--features", "compress", "--test", name]
+        if package == "bitar":
+            cmd = ["cargo", "test", "--offline", "-p", "bitar", "--features", "compress", "--test", name]
+        else:
+            cmd = ["cargo", "test", "--offline", "-p", package, "--test", name]
         cmd += ["--"] + list(tests) + ["--nocapture", "--test-threads", "4"]
         res["cmd"] = "CARGO_TARGET_DIR=work/native/target " + " ".join(cmd)
         try:
@@ -103,8 +107,13 @@ def run_companion(repo, companion_file, tests, seed=1, cases=None, timeout=900, 
 
 
 def setup(repo):
-    r = run_companion(repo, "companions/chunker_companion.rs", ["c09_large_window_agreement"], timeout=1800)
-    print("native companion setup: %s (%d cases, %.0fs)" % (r["status"], r["cases"], r["wall_s"]))
-    if r["status"] != "ok":
-        print(r["out_tail"][-1500:])
-    return 0 if r["status"] == "ok" else 1
+    rc = 0
+    for f, tests, pkg in [("companions/chunker_companion.rs", ["c09_large_window_agreement"], "bitar"),
+                          ("companions/archive_companion.rs", ["c07_range_requests"], "bitar"),
+                          ("companions/cli_companion.rs", ["c04_cli_clone"], "bita")]:
+        r = run_companion(repo, f, tests, timeout=1800, package=pkg)
+        print("native companion setup %s: %s (%d cases, %.0fs)" % (f, r["status"], r["cases"], r["wall_s"]))
+        if r["status"] != "ok":
+            print(r["out_tail"][-1500:])
+            rc = 1
+    return rc
